@@ -1,6 +1,8 @@
 """C20 - file and command-line paths equal the in-memory API (files/CLI vs API; real subprocess CLI; strace sample)."""
 from __future__ import annotations
 
+from pathlib import Path
+
 import json
 import os
 import random
@@ -92,7 +94,9 @@ def file_level(ctx: Ctx, cs, base):
         case = {'case_seed': cs, 'variant': vname, 'text': text}
         d1, e1, x1 = kpx.loads(text)
         try:
-            d2, e2 = kp.load(p)
+            # the path as str or as pathlib.Path (both documented)
+            d2, e2 = kp.load(Path(p) if cs % 2 else p)
+            ctx.mon(f'load_path_form:{"Path" if cs % 2 else "str"}')
             x2 = None
         except Exception as ex:
             d2, e2, x2 = None, None, ex
@@ -122,7 +126,8 @@ def file_level(ctx: Ctx, cs, base):
                 continue
             outp = os.path.join(base, f'd{cs % 10 ** 6}', sub, f'out-{vname}.krn')
             try:
-                kp.dump(d2, outp, **o)
+                kp.dump(d2, Path(outp) if (cs // 2) % 2 else outp, **o)
+                ctx.mon(f'dump_path_form:{"Path" if (cs // 2) % 2 else "str"}')
                 got = read(outp)
             except Exception as ex:
                 ctx.violation('dump-vs-dumps', f'dump into {"a missing nested" if sub else "an existing"} directory raised '
